@@ -92,7 +92,16 @@ fn run_generic<V: vhost_user_backend::VringT<crate::daemon_fx::GM> + Clone + Sen
     let mut keep: Vec<File> = Vec::new();
     let mut kicks: Vec<vmm_sys_util::eventfd::EventFd> = Vec::new();
     let mut refused = 0u32;
+    // canaries: a descriptor of the harness opened after every message takes the lowest free number — also one the
+    // library has closed too early and will close a second time; the library must never close what it does not own
+    let mut canaries: Vec<(std::os::fd::OwnedFd, crate::fdtrack::FileId)> = Vec::new();
     for (i, m) in c.msgs.iter().enumerate() {
+        if canaries.len() < 40 {
+            let fd = crate::fdtrack::make_fd(crate::fdtrack::FdKind::Memfd);
+            if let Some(id) = crate::fdtrack::file_id(fd.as_raw_fd()) {
+                canaries.push((fd, id));
+            }
+        }
         let desc = format!("msg #{i} {m:?}");
         let r: Result<bool, String> = match m {
             TypedMsg::SetOwner => s.acked(fe::SET_OWNER, &[], &[]),
@@ -212,6 +221,16 @@ fn run_generic<V: vhost_user_backend::VringT<crate::daemon_fx::GM> + Clone + Sen
     if !panics.is_empty() {
         return Err(format!("panic in the daemon during teardown: {}", panics[0]));
     }
+    for (k, (fd, id)) in canaries.iter().enumerate() {
+        if crate::fdtrack::file_id(fd.as_raw_fd()) != Some(*id) {
+            let n = fd.as_raw_fd();
+            // do not close a number that is not ours any more
+            for (fd, _) in canaries.drain(..) {
+                std::mem::forget(fd);
+            }
+            return Err(format!("descriptor {n} of the harness (opened after message #{k}, never passed to the library) was closed or replaced during the session: the library closed a descriptor it does not own"));
+        }
+    }
     Ok(())
 }
 
@@ -244,6 +263,8 @@ fn msg_strategy() -> impl Strategy<Value = TypedMsg> {
         1 => (any::<u8>(), any::<bool>()).prop_map(|(i, s)| TypedMsg::SetVringKick(i, s)),
         1 => (any::<u8>(), any::<bool>()).prop_map(|(i, s)| TypedMsg::SetVringCall(i, s)),
         1 => (any::<u8>(), any::<bool>()).prop_map(|(i, s)| TypedMsg::SetVringErr(i, s)),
+        2 => (any::<u8>(), any::<bool>()).prop_map(|(i, s)| TypedMsg::SetVringCall(i % 4, s)),
+        1 => (any::<u8>(), any::<bool>()).prop_map(|(i, s)| TypedMsg::SetVringErr(i % 4, s)),
         2 => (small_or_big_index(), any::<bool>()).prop_map(|(i, on)| TypedMsg::SetVringEnable(i, on)),
         1 => (lat32(), lat32(), any::<u32>()).prop_map(|(a, b, c)| TypedMsg::GetConfig(a, b, c)),
         1 => (lat32(), lat32(), any::<u32>()).prop_map(|(a, b, c)| TypedMsg::SetConfig(a, b, c)),
@@ -282,6 +303,23 @@ fn related_sequence() -> impl Strategy<Value = Vec<TypedMsg>> {
     })
 }
 
+/// descriptor-carrying ring messages on few rings: installs, replacements and removals of kick / call / err descriptors on
+/// rings that are stopped, started and running, interleaved with stop and enable
+fn ring_fd_sequence() -> impl Strategy<Value = Vec<TypedMsg>> {
+    let op = (0u8..3, any::<bool>(), 0u8..8).prop_map(|(r, some, k)| match k {
+        0 | 1 => TypedMsg::SetVringKick(r, true),
+        2 | 3 => TypedMsg::SetVringCall(r, true),
+        4 => TypedMsg::SetVringErr(r, some),
+        5 => TypedMsg::SetVringCall(r, some),
+        6 => TypedMsg::GetVringBase(r as u32),
+        _ => TypedMsg::SetVringEnable(r as u32, some),
+    });
+    proptest::collection::vec(op, 4..24).prop_map(|mut v| {
+        v.insert(0, TypedMsg::SetFeatures(0x1_7000_0000));
+        v
+    })
+}
+
 pub fn run_daemon_case(ctx: &mut Ctx, c: &DaemonCase) -> Result<(), String> {
     if c.rwlock {
         run_generic::<VRw>(ctx, c)
@@ -296,6 +334,7 @@ pub fn daemon_case_strategy() -> impl Strategy<Value = DaemonCase> {
         prop_oneof![
             3 => proptest::collection::vec(msg_strategy(), 1..30),
             1 => related_sequence(),
+            1 => ring_fd_sequence(),
         ],
     )
         .prop_map(|(rwlock, msgs)| DaemonCase { rwlock, msgs })
